@@ -11,6 +11,13 @@ PY = "/venv/bin/python"
 
 # property -> (technique, level text, level note, design ref)
 CLAIMED = {
+    "C07": ("TLA+ reference semantics of reindex_axis / reindex_like (spec/Arrays.tla Reindex, Labels.tla ReindexPos with numpy.searchsorted "
+            "semantics) enumerated by TLC with MovesWithLabels / identity / RaiseIff theorems; scenarios replayed",
+            "TLC enumerates every stored order of the axis x every new label sequence (incl. empty, repeated, disjoint) x fill x raise_error x "
+            "method, the reindexed axis embedded at each position of 2-3-d arrays, and reindex_like templates; spec theorems are invariants; each "
+            "scenario is replayed with labels as list / ndarray / Axis and kinds int, float, str and int<->float.",
+            "Trusted: TLC, projection/concretisation, NumPy. Source axes are non-empty (empty sources belong to C06).",
+            "5 (C07)"),
     "C10": ("TLA+ reference semantics of transpose/T/swapaxes/rollaxis/newaxis/squeeze/repeat/broadcast/broadcast_arrays (spec/Arrays.tla) "
             "model-checked by TLC (coordinate-preservation invariants on every reachable program state) and every program replayed",
             "TLC explores every program of 1-2 rearranging operations over the template arrays (0-3 dims quick, 0-4 thorough, distinct axis lengths, "
